@@ -18,11 +18,13 @@ DAV = "{DAV:}"
 CALNS = "urn:ietf:params:xml:ns:caldav"
 CARDNS = "urn:ietf:params:xml:ns:carddav"
 
-FRONTENDS = ("wsgi", "wsgi-module", "aiohttp")
+FRONTENDS = ("wsgi", "wsgi-module", "aiohttp", "main")
 ROUTE_PREFIXES = ("/", "/dav/", "/a/b/")
 PRINCIPALS = ("/user/", "/user", "/users/joe/", "/users/joe", "/org/unit/ann/", "/a b/é/", "/p#1/q?2/", "/x;w/y=z&1/")
-# one entry per start of the server: D = --defaults, A = --autocreate only
-START_SEQUENCES = (("D",), ("D", "D"), ("D", "D", "D", "D"), ("A",), ("A", "A"), ("A", "D"), ("D", "A", "D"))
+# one entry per start of the server: D = --defaults, A = --autocreate only, N = neither flag
+START_SEQUENCES = (("D",), ("D", "D"), ("D", "D", "D", "D"), ("A",), ("A", "A"), ("A", "D"), ("D", "A", "D"),
+                   ("D", "N"), ("D", "A", "N", "D"), ("A", "N", "N"))
+MODE = {"D": "1", "A": "0", "N": "n"}
 
 
 def fs_colls(root):
@@ -148,7 +150,7 @@ class Walk:
 
     def script_name(self):
         # what environ["SCRIPT_NAME"] holds: the route prefix under aiohttp, the mount point under WSGI
-        return self.impl.prefix if self.impl.frontend == "aiohttp" else self.base
+        return self.impl.prefix if self.impl.frontend in ("aiohttp", "main") else self.base
 
     def wellknown(self):
         if self.impl.frontend == "wsgi":
@@ -200,7 +202,7 @@ def run_config(chk, fe, prefix, principal, seq, toks):
     impl = None
     try:
         impl = HttpImpl(fe, prefix, toks, root, principal=principal, defaults=(seq[0] == "D"), autocreate=True)
-        lines.append("hboot %s %s %s" % (enc(principal), "1" if seq[0] == "D" else "0", how))
+        lines.append("hboot %s %s %s" % (enc(principal), MODE[seq[0]], how))
         lines.append("COLLS | " + fs_colls(data))
         P = posixpath.normpath(principal)
         have_defaults = seq[0] == "D"
@@ -211,9 +213,10 @@ def run_config(chk, fe, prefix, principal, seq, toks):
             if k > 0:
                 # restart with this start's options
                 impl.srv.kw["defaults"] = (mode == "D")
+                impl.srv.kw["autocreate"] = (mode != "N")
                 impl.srv.restart()
                 lines.append("restart | restart")
-                lines.append("hboot %s %s %s" % (enc(principal), "1" if mode == "D" else "0", how))
+                lines.append("hboot %s %s %s" % (enc(principal), MODE[mode], how))
                 lines.append("COLLS | " + fs_colls(data))
                 if mode == "D" and how == "simple":
                     have_defaults = True
@@ -292,9 +295,9 @@ def run_config(chk, fe, prefix, principal, seq, toks):
 
 
 def run(chk):
-    chk.rule = ("deployments = front end (aiohttp as run_simple_server sets it up; the WSGI callable; the xandikos/wsgi.py "
-                "start-up wrapped in WellknownRedirector) x route prefix (/, /dav/, /a/b/) x principal path (with/without "
-                "trailing slash, nested, with blanks/non-ASCII/#?:;) x start sequences (--defaults / --autocreate, 1-4 "
+    chk.rule = ("deployments = front end (aiohttp as run_simple_server sets it up; xandikos.web.main() in a process of its own, "
+                "killed for every restart; the WSGI callable; the xandikos/wsgi.py start-up wrapped in WellknownRedirector) x route prefix (/, /dav/, /a/b/) x principal path (with/without "
+                "trailing slash, nested, with blanks/non-ASCII/#?;) x start sequences (--defaults / --autocreate / neither, 1-4 "
                 "starts, switching mode); a client follows .well-known -> current-user-principal -> home sets -> Depth 1 "
                 "using only returned hrefs; it then creates a calendar, writes members and a displayname through those "
                 "hrefs; after every restart the chain, the listings, ETags, bodies and properties must be unchanged. "
